@@ -18,6 +18,9 @@ RULE = ("three case families: (i) byte strings x chunkings through the real Runn
         "settings, pty); (ii) gated schedules of the real Runner threads (writes, reads, exit, kill, faults in any "
         "order) compared step-for-step with the Lean transition system; (iii) real child processes writing 0..200000 "
         "bytes with a multi-byte character straddling the read size and the pipe buffer, exiting at once, pty on/off. "
+        "(i') LIVE: the real Runner.read_proc_output generator over scripted reads - the text yielded when k reads were "
+        "consumed is compared with the model's never-flushed decoding of those k reads, for every k, and must be an "
+        "initial part of the final text. "
         "non-trivial = the stream contains a multi-byte or invalid sequence or is split into >1 read; distinct by content")
 TRUSTED = ["Lean 4.33 kernel", "axioms propext/Classical.choice/Quot.sound only",
            "harness/gate.py gate scheduler + harness/runnerio.py canonicalisation",
@@ -98,6 +101,23 @@ def scripted_run(chunks, err_chunks=(), hide=None, encoding="utf-8", explicit=Fa
     finally:
         sys.stdout, sys.stderr = old
     return res.stdout, res.stderr, mo.getvalue(), me.getvalue(), leak_o.getvalue() + leak_e.getvalue()
+
+
+def live_prefixes(chunks):
+    """real Runner.read_proc_output over scripted reads: snaps[k] = text yielded when exactly k reads had been consumed
+    (taken at the moment the generator asks for read k+1, and at the end-of-stream read), final = everything yielded"""
+    from fakerunner import Scripted
+    r = Scripted()
+    r.encoding = "utf-8"
+    pending, seen, snaps = list(chunks), [], []
+
+    def reader(n):
+        snaps.append("".join(seen))
+        return pending.pop(0) if pending else b""
+
+    for text in r.read_proc_output(reader):
+        seen.append(text)
+    return snaps, "".join(seen)
 
 
 def hidden(hide, explicit):
@@ -296,6 +316,36 @@ def run(ctx):
         why = oracle_scripted(c, got)
         if why:
             out.fail(c, why)
+    # (i') LIVE family: the text the real `Runner.read_proc_output` has yielded when k reads were consumed = the model's
+    # never-flushed decoding of those k reads (ties `live_output_is_prefix_of_final` / `live_output_grows`), and it is an
+    # initial part of the final text
+    live_cases = [c for c in cases if c.get("enc", "utf-8") == "utf-8" and not c.get("read_size")]
+    rng.shuffle(live_cases)
+    live_cases = live_cases[:ctx.n(1500, 12000)]
+    live_lines, live_got = [], []
+    for c in live_cases:
+        got = common.with_timeout(live_prefixes, 30, [bytes.fromhex(x) for x in c["chunks"] if x])
+        live_got.append(got)
+        ck = [x for x in c["chunks"] if x]
+        live_lines += ["U|" + ",".join(ck[:k]) for k in range(len(ck) + 1)]
+    live_model = drv.run(live_lines) if ctx.model_ok else [None] * len(live_lines)
+    pos = 0
+    for c, (snaps, final) in zip(live_cases, live_got):
+        lc = {"kind": "live", "chunks": c["chunks"]}
+        out.case(lc, len(snaps) > 2)
+        out.hist["live"] += 1
+        for k, snap in enumerate(snaps):
+            m = live_model[pos + k]
+            if m is not None:
+                out.traces += 1
+                if runnerio.codes(snap) != m:
+                    out.disagree(dict(lc, reads_consumed=k), runnerio.codes(snap), m)
+                    break
+            if not final.startswith(snap):
+                out.fail(dict(lc, reads_consumed=k), "text already yielded after %d reads %r is not an initial part of the final text %r"
+                         % (k, snap[-40:], final[:60]))
+                break
+        pos += len(snaps)
     # (ii) gated schedules
     gcases = [runnerio.gen_case(rng, rng.choice(["output", "output", None, "fault", "timer"])) for _ in range(ctx.n(1500, 15000))]
     runnerio.run_cases(ctx, out, gcases, oracle=oracle_gated)
